@@ -314,6 +314,26 @@ def run_one(cfg, decisions=None, keep_events=False):
                     xs, ws = weights.get_weights(pars.get(prm.name + "_pd_type", "gaussian"), n_, w_,
                                                  pars.get(prm.name + "_pd_nsigma", 3.0), value, prm.limits,
                                                  prm.relative_pd)
+                    # the limits clause on its own: what is left is exactly the part of the
+                    # *unlimited* distribution that lies inside [lower, upper], both ends
+                    # included, renormalised
+                    xu, wu = weights.get_weights(pars.get(prm.name + "_pd_type", "gaussian"), n_, w_,
+                                                 pars.get(prm.name + "_pd_nsigma", 3.0), value,
+                                                 (-np.inf, np.inf), prm.relative_pd)
+                xu, wu = np.asarray(xu, "d"), np.asarray(wu, "d")
+                if np.all(np.isfinite(xu)) and np.all(np.isfinite(wu)):
+                    inside = (xu >= float(prm.limits[0])) & (xu <= float(prm.limits[1]))
+                    same = np.array_equal(np.asarray(xs, "d"), xu[inside])
+                    if same and inside.any() and np.sum(wu[inside]) > 0:
+                        same = np.allclose(np.asarray(ws, "d"), wu[inside] / np.sum(wu[inside]), rtol=1e-12, atol=0)
+                    if not same:
+                        fail("A0", "parameter %s: %d of the %d distribution points lie inside the limits %r, the "
+                             "truncated distribution has %d points (or other weights)"
+                             % (prm.name, int(inside.sum()), len(xu), tuple(prm.limits), len(xs)), cause="truncation")
+                        return _result(cfg, events, violations, probes, fired, None, False, keep_events)
+                    probe("truncation_checked_against_unlimited_distribution")
+                    if inside.any() and (np.any(xu[inside] == float(prm.limits[1])) or np.any(xu[inside] == float(prm.limits[0]))):
+                        probe("distribution_point_exactly_on_a_limit")
             elif prm.polydisperse:
                 xs, ws = [value if prm.relative_pd else 0.0], [1.0]
             else:
@@ -872,6 +892,16 @@ def sweep_configs(tier):
                 k_ += 1
                 out.append(dict(base, model=ma, q="q3", sched_seed=100 + k_, pars=dict(req),
                                 prelude=[{"model": mb, "pars": dict(req), "q": "q3"}]))
+    # distribution points exactly on a finite upper limit and on the lower limit (both take part)
+    out.append(dict(base, model="raspberry", q="q3", sched_seed=17, pars={
+        "penetration": 0.5, "penetration_pd": 1.0, "penetration_pd_n": 5, "penetration_pd_type": "uniform"}))
+    out.append(dict(base, model="raspberry", q="q3", sched_seed=19, pars={
+        "penetration": 0.5, "penetration_pd": 0.5, "penetration_pd_n": 5, "penetration_pd_nsigma": 2.0}))
+    out.append(dict(base, model="raspberry", q="q3", sched_seed=20, pars={
+        "penetration": 0.5, "penetration_pd": 0.5, "penetration_pd_n": 9, "penetration_pd_nsigma": 2.0,
+        "penetration_pd_type": "schulz"}))
+    out.append(dict(base, model="sphere", q="q3", sched_seed=18, pars={
+        "radius": 10.0, "radius_pd": 1.0, "radius_pd_n": 5, "radius_pd_type": "uniform"}))
     # theta jitter reaching beyond +-90 degrees: the projection factor is |cos|, such points take part
     out.append(dict(base, model="cylinder", q="xy4", sched_seed=15, cutoff=1e-5, pars={
         "theta": 30.0, "theta_pd": 50.0, "theta_pd_n": 7, "theta_pd_nsigma": 3.0, "radius_pd": 0.1, "radius_pd_n": 4}))
